@@ -435,10 +435,25 @@ def freshConnO (ka : List Bool) (policy : Policy) (o : Opts) : DState :=
 def freshConn (ka : List Bool) (policy : Policy) : DState := freshConnO ka policy {}
 
 /-- `run`-like: explore to quiescence, drain, repeat while something was taken. Every outcome. -/
-partial def runLike (d : DState) (acc : Got) : List (DState × Got) :=
-  (explore [d] [] []).flatMap fun f =>
+def gotKey (g : Got) : String :=
+  joinWith ";" (g.ps.map fun p => match p with
+    | some l => canonField (joinWith "," l)
+    | none => "x") ++ "#" ++ joinWith "," g.m
+
+/-- One round for every candidate: explore to quiescence, drain. Candidates that agree on the state (`key`) and on
+what has been observed so far (up to the order of answers) are one candidate. -/
+partial def runRounds (cur : List (DState × Got)) (done : List (DState × Got)) : List (DState × Got) :=
+  if cur.isEmpty then done else
+  let step := cur.flatMap fun (d, acc) => (explore [d] [] []).map fun f =>
     let (f', g) := drainAll f
-    if g.isEmpty then [(f', acc.append g)] else runLike f' (acc.append g)
+    (f', acc.append g, g.isEmpty)
+  let (uniq, _) := step.foldl (fun (a : Array (DState × Got × Bool) × Std.HashSet String) x =>
+    let k := key x.1 ++ "#" ++ gotKey x.2.1
+    if a.2.contains k then a else (a.1.push x, a.2.insert k)) (#[], {})
+  let l := uniq.toList
+  runRounds ((l.filter fun x => !x.2.2).map fun x => (x.1, x.2.1)) (done ++ (l.filter fun x => x.2.2).map fun x => (x.1, x.2.1))
+
+partial def runLike (d : DState) (acc : Got) : List (DState × Got) := runRounds [(d, acc)] []
 
 def emptyGot (d : DState) : Got :=
   { ps := (List.range d.n).map fun i => match d.t.loop.ps.chans[i]? with
